@@ -1,6 +1,7 @@
 SPECIFICATION Spec
 CONSTANTS MaxCap = 3
           MaxOps = 3
+          MaxPend = 3
           MaxMsgs = 6
           FixedWrap = FALSE
 INVARIANTS IndexInRange
